@@ -42,10 +42,12 @@ const FRAME_SET: [u32; 3] = [16_384, 16_385, 0x00ff_ffff];
 const TABLE_SET: [u32; 4] = [0, 1, 4_096, 65_536];
 
 /// ledger kinds that refute C14 (the others are reported as inconclusive: not this property's)
-const C14_KINDS: [&str; 8] = [
+const C14_KINDS: [&str; 10] = [
     h2::LV_STREAM_WINDOW,
+    h2::LV_STREAM_WINDOW_AFTER_ACK,
     h2::LV_CONN_WINDOW,
     h2::LV_FRAME_SIZE,
+    h2::LV_FRAME_SIZE_AFTER_ACK,
     h2::LV_CONCURRENT,
     h2::LV_STREAM_ID,
     h2::LV_CLOSED_STREAM,
@@ -697,6 +699,28 @@ fn locate(ids: &[u64], probe: &[u8], max_len: usize) -> String {
     "these octets match no transfer of the connection".to_owned()
 }
 
+/// class of a body mismatch, from the octets found where the keystream was expected
+fn corruption_class(ids: &[u64], probe: &[u8], max_len: usize) -> (&'static str, String) {
+    // a 9-octet header of a connection-level or small control frame sitting in the payload
+    if probe.len() >= 9
+        && probe[0] == 0
+        && probe[1] == 0
+        && probe[2] < 64
+        && matches!(probe[3], 3 | 4 | 6 | 7 | 8)
+        && probe[5] & 0x80 == 0
+        && (probe[3] == 3 || probe[3] == 8 || probe[5..9] == [0, 0, 0, 0])
+    {
+        let name = h2::frame_type_name(probe[3]);
+        return ("body_spliced_control_frame", format!("a {name} frame header ({}) sits inside the DATA payload", hex::encode(&probe[..9])));
+    }
+    let where_from = locate(ids, probe, max_len);
+    if where_from.starts_with("these octets are offset") {
+        ("body_reordered", where_from)
+    } else {
+        ("body_corrupted", where_from)
+    }
+}
+
 // ---- HTTP/1.1 backend --------------------------------------------------------------------------
 
 fn h1_backend(addr: SocketAddr, prog: IoProgram, shared: Arc<Shared>) -> std::io::Result<BackendServer> {
@@ -717,7 +741,7 @@ fn h1_backend(addr: SocketAddr, prog: IoProgram, shared: Arc<Shared>) -> std::io
                 Err(_) => return,
             };
             let Ok(events) = p.feed(&buf[..n]) else {
-                shared.corrupt.lock().unwrap().push("h1 backend: unparsable request from sozu".to_owned());
+                shared.corrupt.lock().unwrap().push("body_corrupted|h1 backend: unparsable request from sozu".to_owned());
                 return;
             };
             for e in events {
@@ -732,7 +756,7 @@ fn h1_backend(addr: SocketAddr, prog: IoProgram, shared: Arc<Shared>) -> std::io
                     h1::Event::Body(b) => {
                         if let Some((id, _, _)) = cur {
                             if let Some(k) = keystream_mismatch(id, got, &b) {
-                                shared.corrupt.lock().unwrap().push(format!("request body of transfer {id} differs from its keystream at offset {}", got + k as u64));
+                                shared.corrupt.lock().unwrap().push(format!("body_corrupted|request body of transfer {id} differs from its keystream at offset {}", got + k as u64));
                             }
                             got += b.len() as u64;
                             if let Some(pr) = shared.prog.lock().unwrap().get_mut(&id) {
@@ -743,7 +767,7 @@ fn h1_backend(addr: SocketAddr, prog: IoProgram, shared: Arc<Shared>) -> std::io
                     h1::Event::End(_) => {
                         let Some((id, up, down)) = cur.take() else { continue };
                         if got != up as u64 {
-                            shared.corrupt.lock().unwrap().push(format!("request body of transfer {id} ended after {got} of {up} octets"));
+                            shared.corrupt.lock().unwrap().push(format!("body_truncated|request body of transfer {id} ended after {got} of {up} octets"));
                         }
                         if let Some(pr) = shared.prog.lock().unwrap().get_mut(&id) {
                             pr.up_done = true;
@@ -908,7 +932,7 @@ fn h2c_serve(c: &mut H2Conn<std::net::TcpStream>, rx: &mut Receiver, conn: usize
                     } else {
                         let path = h2::header_str(&headers, ":path").unwrap_or_default();
                         let Some((id, up, down)) = parse_path(&path) else {
-                            shared.corrupt.lock().unwrap().push(format!("h2c backend: request with unexpected path {path:?}"));
+                            shared.corrupt.lock().unwrap().push(format!("body_corrupted|h2c backend: request with unexpected path {path:?}"));
                             continue;
                         };
                         xs.insert(stream, BackX { id, up, down, got: 0, up_done: end_stream, resp_started: false, sent: 0, done: false });
@@ -922,8 +946,9 @@ fn h2c_serve(c: &mut H2Conn<std::net::TcpStream>, rx: &mut Receiver, conn: usize
                                 rx.corrupt_at = Some(c.frames_in.len().saturating_sub(1));
                                 let lo = k.saturating_sub(8);
                                 let hi = (k + 40).min(data.len());
+                                let (class, why) = corruption_class(&[x.id], &data[k..], x.up.max(x.down));
                                 shared.corrupt.lock().unwrap().push(format!(
-                                    "request body of transfer {} differs from its keystream at offset {} (frame of {} octets, mismatch at +{k}); received[{lo}..{hi}]={} expected={}",
+                                    "{class}|request body of transfer {} differs from its keystream at offset {} (frame of {} octets, mismatch at +{k}): {why}; received[{lo}..{hi}]={} expected={}",
                                     x.id,
                                     x.got + k as u64,
                                     data.len(),
@@ -936,7 +961,7 @@ fn h2c_serve(c: &mut H2Conn<std::net::TcpStream>, rx: &mut Receiver, conn: usize
                         if end_stream {
                             x.up_done = true;
                             if x.got != x.up as u64 {
-                                shared.corrupt.lock().unwrap().push(format!("request body of transfer {} ended after {} of {} octets", x.id, x.got, x.up));
+                                shared.corrupt.lock().unwrap().push(format!("body_truncated|request body of transfer {} ended after {} of {} octets", x.id, x.got, x.up));
                             }
                         }
                     }
@@ -1234,7 +1259,7 @@ fn run_conn_h1(plan: &ConnPlan, front: SocketAddr, shared: &Shared, watchdog: Du
                             h1::Event::Body(b) => {
                                 if !x.exempt {
                                     if let Some(k) = keystream_mismatch(x.id | DOWN_ID, x.down_recv as u64, &b) {
-                                        out.corrupt.push(format!("response body of transfer {} differs from its keystream at offset {}", x.id, x.down_recv + k));
+                                        out.corrupt.push(format!("body_corrupted|response body of transfer {} differs from its keystream at offset {}", x.id, x.down_recv + k));
                                     }
                                 }
                                 x.down_recv += b.len();
@@ -1242,7 +1267,7 @@ fn run_conn_h1(plan: &ConnPlan, front: SocketAddr, shared: &Shared, watchdog: Du
                             h1::Event::End(_) => {
                                 x.done = true;
                                 if !x.exempt && x.down_recv != x.down {
-                                    out.corrupt.push(format!("response of transfer {} ended after {} of {} octets", x.id, x.down_recv, x.down));
+                                    out.corrupt.push(format!("body_truncated|response of transfer {} ended after {} of {} octets", x.id, x.down_recv, x.down));
                                 }
                             }
                         }
@@ -1372,7 +1397,7 @@ fn client_loop(
                         if end_stream {
                             x.done = true;
                             if !x.exempt && x.down_recv != x.down {
-                                out.corrupt.push(format!("response of transfer {} ended after {} of {} octets", x.id, x.down_recv, x.down));
+                                out.corrupt.push(format!("body_truncated|response of transfer {} ended after {} of {} octets", x.id, x.down_recv, x.down));
                             }
                         }
                     }
@@ -1387,9 +1412,10 @@ fn client_loop(
                                     out.corrupt_at.get_or_insert(c.frames_in.len().saturating_sub(1));
                                     let ids: Vec<u64> = plan.xfers.iter().map(|p| p.id).collect();
                                     let max_len = plan.xfers.iter().map(|p| p.up.max(p.down)).max().unwrap_or(0);
+                                    let (class, why) = corruption_class(&ids, &data[k..], max_len);
                                     out.corrupt.push(format!(
-                                        "response body of transfer {} differs from its keystream at offset {} (frame of {} octets, mismatch at +{k}): {}",
-                                        x.id, x.down_recv + k, data.len(), locate(&ids, &data[k..], max_len)
+                                        "{class}|response body of transfer {} differs from its keystream at offset {} (frame of {} octets, mismatch at +{k}): {why}",
+                                        x.id, x.down_recv + k, data.len()
                                     ));
                                     let lo = k.saturating_sub(8);
                                     let hi = (k + 40).min(data.len());
@@ -1405,7 +1431,7 @@ fn client_loop(
                         if end_stream {
                             x.done = true;
                             if !x.exempt && x.down_recv != x.down {
-                                out.corrupt.push(format!("response of transfer {} ended after {} of {} octets", x.id, x.down_recv, x.down));
+                                out.corrupt.push(format!("body_truncated|response of transfer {} ended after {} of {} octets", x.id, x.down_recv, x.down));
                             }
                         }
                     }
@@ -1623,6 +1649,9 @@ fn run_cell(ctx: &Ctx, force: Force, seed: u64, case: u64, rep: &mut Report, sol
         rep.obs(if cp.front_h1 { "connections.h1_front" } else { "connections.h2_front" }, 1);
         let nontrivial = cp.xfers.iter().any(|x| x.up + x.down > 0);
         rep.case(fingerprint(&plan, cp), nontrivial);
+        if rep.samples.is_empty() && nontrivial && ci == 0 {
+            rep.sample(json!({"case": case, "conn": ci, "plan": plan_json(&plan)}));
+        }
         merge_stats(&mut front_stats, &o.stats);
         rep.obs("front.own_window_waits", o.own_window_waits);
         rep.obs("front.bytes_uploaded_under_sozu_windows", o.uploaded);
@@ -1654,8 +1683,9 @@ fn run_cell(ctx: &Ctx, force: Force, seed: u64, case: u64, rep: &mut Report, sol
         }
         rep.obs("front.ledger_findings_after_corruption_ignored", o.after_corruption);
         for d in &o.corrupt {
+            let (class, d) = d.split_once('|').unwrap_or(("body_corrupted", d));
             rep.violation(
-                if d.contains("differs") { "h2limits/body_corrupted/front" } else { "h2limits/body_truncated/front" },
+                &format!("h2limits/{class}/front"),
                 d,
                 with(json!({"expected": "response body == keystream, END_STREAM after the last octet", "observed": d, "bytes": o.corrupt_hex, "frame_trace": o.trace_tail})),
             );
@@ -1752,8 +1782,9 @@ fn run_cell(ctx: &Ctx, force: Force, seed: u64, case: u64, rep: &mut Report, sol
         rep.sample(json!({"case": case, "other_ledger_finding_back": d}));
     }
     for d in shared.corrupt.lock().unwrap().iter() {
+        let (class, d) = d.split_once('|').unwrap_or(("body_corrupted", d));
         rep.violation(
-            if d.contains("differs") { "h2limits/body_corrupted/back" } else { "h2limits/body_truncated/back" },
+            &format!("h2limits/{class}/back"),
             d,
             json!({"case": case, "seed": seed, "generator": force.json(), "plan": plan_json(&plan), "expected": "request body == keystream", "observed": d}),
         );
